@@ -23,6 +23,7 @@ RULE = (
     "crossed with layout and output period, other dimensions (particle variables, reference time, numrec) assigned round-robin; "
     "non-trivial = some particle dies before a later record AND some record holds >= 1 particle; lattice points distinct by construction"
 )
+RULE += " Beyond the lattice (chosen scenarios, not enumerated): crowds of 120-700 particles; a reference time in another century; every dense variable also read in one piece with sentinel-initialised buffers."
 ASSUMPTIONS = ["analytic grid/forcing plug-ins; NETCDF4 data model only"]
 
 S0 = world.tosec("2020-05-10T06:00:00")
